@@ -10,6 +10,7 @@ from .protocolentities import ResultRequestUploadIqProtocolEntity
 from .protocolentities import MediaMessageProtocolEntity
 from .protocolentities import ExtendedTextMediaMessageProtocolEntity
 from yowsup.layers.protocol_iq.protocolentities import IqProtocolEntity, ErrorIqProtocolEntity
+from yowsup.layers.protocol_messages.proto.e2e_pb2 import Message
 import logging
 
 logger = logging.getLogger(__name__)
@@ -33,6 +34,10 @@ class YowMediaProtocolLayer(YowProtocolLayer):
     def recvMessageStanza(self, node):
         if node.getAttributeValue("type") == "media":
             mediaNode = node.getChild("proto")
+            if self.isSenderKeyDistributionOnly(mediaNode):
+                # the pkmsg part of a first group message carries nothing but the sender key, the media itself
+                # arrives in the skmsg part; same guard as YowMessagesProtocolLayer.recvMessageStanza
+                return
             if mediaNode.getAttributeValue("mediatype") == "image":
                 entity = ImageDownloadableMediaMessageProtocolEntity.fromProtocolTreeNode(node)
                 self.toUpper(entity)
@@ -60,6 +65,13 @@ class YowMediaProtocolLayer(YowProtocolLayer):
             else:
                 logger.warn("Unsupported mediatype: %s, will send receipts" % mediaNode.getAttributeValue("mediatype"))
                 self.toLower(MediaMessageProtocolEntity.fromProtocolTreeNode(node).ack(True).toProtocolTreeNode())
+
+    @staticmethod
+    def isSenderKeyDistributionOnly(protoNode):
+        message = Message()
+        message.ParseFromString(protoNode.getData())
+        fields = [descriptor.name for descriptor, _ in message.ListFields()]
+        return fields == ["sender_key_distribution_message"]
 
     def sendIq(self, entity):
         """
